@@ -21,7 +21,8 @@ RULE = ("1-6 parameter combinations (grid a x b, or a alone), each with its own 
         "max_timesteps; ~30% of cases also run with 2..4 worker processes (thorough: up to 16) and must equal the serial "
         "outcome. Oracle = exact Fraction recomputation of every aggregate; best must be (by identity) the FIRST result whose "
         "reported aggregate is the min (MIN modes) / max (MAX modes). Non-trivial: >= 3 combinations with the optimum not "
-        "first, or a tie for the optimum, or a score beyond +-sys.maxsize. Distinct = digest of the case.")
+        "first, or a tie for the optimum, or a score beyond +-sys.maxsize. Distinct = digest of the case."
+        " Added in rounds 19-24: integer scores beyond the float range for min / max / sum; reused ParameterList objects; an always-truthy user model class; numpy uint8 scores for the min / max modes (generated and an exhaustive table family).")
 ASSUMPTIONS = ["parameter names 'records' and 'score' are reserved by the documented result format and not generated",
                "float aggregates are compared within 4*n*eps*sum|x| (sum) / correctly-rounded-or-4-ulp (mean, variance); "
                "integer aggregates exactly (or the correctly rounded float where statistics returns one)",
